@@ -6,6 +6,7 @@ import (
 
 	"go.pennock.tech/tabular"
 	"go.pennock.tech/tabular/length"
+	"go.pennock.tech/tabular/texttable"
 
 	"verifharness/internal/gen"
 	"verifharness/internal/model"
@@ -47,14 +48,29 @@ func c04Item(r *gen.R) gen.ItemSpec {
 	}
 }
 
-func c04Check(c *Ctx, spec *gen.TableSpec, aligns []int, decos []namedDeco, sample bool) {
+func c04Check(c *Ctx, spec *gen.TableSpec, aligns []int, decos []namedDeco, st *stage, sample bool) {
 	m := textModelOf(spec)
 	m.Aligns = make([]int, m.NCols)
 	for i := range m.Aligns {
 		m.Aligns[i] = effectiveAlign(aligns, i+1)
 	}
-	b := spec.Build(tabular.New())
-	applyAligns(b.T, aligns)
+	t0 := tabular.New()
+	reused := texttable.Wrap(t0)
+	var b *gen.Built
+	if st != nil {
+		b = spec.BuildStaged(t0, st.At, func() {
+			applyAligns(t0, st.PreAligns)
+			reused.Render()
+		})
+		applyAligns(t0, st.PreAligns)
+		reused.SetDecoration(decos[len(decos)-1].d).Render()
+		b.Finalize()
+		setAlignsExactly(t0, aligns) // puts the final assignment in force, withdrawing what the earlier one set
+		c.Rec.Count("staged_cases(render, change, render again through the same wrapper)", 1)
+	} else {
+		b = spec.Build(t0)
+		applyAligns(b.T, aligns)
+	}
 	widths := model.ColumnWidths(m, length.StringCells)
 	declW, declH := false, false
 	each := func(it *gen.ItemSpec) {
@@ -82,8 +98,17 @@ func c04Check(c *Ctx, spec *gen.TableSpec, aligns []int, decos []namedDeco, samp
 	nontrivial := spec.NBody() > 0 && (anyAlign || declW || declH)
 	for _, nd := range decos {
 		cs := &c03Case{Table: *spec, Decoration: nd.name, Aligns: aligns}
+		if st != nil {
+			cs.Mode = st.Note
+		}
 		c.Case = cs
-		out, err := renderText(b.T, nd)
+		var out string
+		var err error
+		if st != nil {
+			out, err = reused.SetDecoration(nd.d).Render()
+		} else {
+			out, err = renderText(b.T, nd)
+		}
 		c.Rec.Eval(gen.Hash64(spec.Shape(), fmt.Sprint(spec.HeaderTexts()), fmt.Sprint(textsOf(spec)), nd.name, fmt.Sprint(aligns)), nontrivial)
 		if err != nil {
 			if out != "" {
@@ -138,7 +163,7 @@ func c04Random(c *Ctx, i int, r *gen.R) {
 	decos := allDecorations(c, r, 1)
 	// a sample of the decorations per table keeps the cost down; all of them over the run
 	k := r.Intn(len(decos))
-	c04Check(c, &spec, aligns, []namedDeco{decos[k], decos[(k+3)%len(decos)]}, true)
+	c04Check(c, &spec, aligns, []namedDeco{decos[k], decos[(k+3)%len(decos)]}, drawStage(r, len(spec.Rows), spec.NCols()), true)
 }
 
 // every alignment assignment to column 0 and 3 columns on a fixed ragged table with odd and even paddings
@@ -163,7 +188,11 @@ func c04Alignments(c *Ctx, i int, r *gen.R) {
 			{Items: []gen.ItemSpec{gen.StrItem("abcde"), gen.TypedItem("VS_HW", gen.Fields{S: "zz", HV: 3, WV: 7}, false), gen.StrItem("k")}, Mode: gen.ModeNewRowAdd},
 		}
 	}
-	c04Check(c, &spec, aligns, allDecorations(c, r, 0), i%100 == 17)
+	var st *stage
+	if i%2 == 1 {
+		st = &stage{At: i % 3, PreAligns: []int{(i / 4) % 4, i % 4, (i / 16) % 4, (i / 2) % 4}, Note: "staged: wrapper reused, other alignments at the first render"}
+	}
+	c04Check(c, &spec, aligns, allDecorations(c, r, 0), st, i%100 == 17)
 }
 
 func init() {
